@@ -159,6 +159,10 @@ theorem applyCmd_ctx (b : Nat) (c : BCmd) (w : FWorld) : (applyCmd b c w).2.ctx 
   unfold applyCmd
   split <;> (try rfl) <;> (repeat' split) <;> rfl
 
+theorem applyCmd_objs (b : Nat) (c : BCmd) (w : FWorld) : (applyCmd b c w).2.objs = w.objs := by
+  unfold applyCmd
+  split <;> (try rfl) <;> (repeat' split) <;> rfl
+
 theorem applyCmd_outs (b : Nat) (c : BCmd) (w : FWorld) : (applyCmd b c w).2.outs = w.outs := by
   unfold applyCmd
   split <;> (try rfl) <;> (repeat' split) <;> rfl
